@@ -453,7 +453,10 @@ class Form(BaseForm):
 
             numbering = {}
             for exprs in exprs_by_type.values():
-                for i, expr in enumerate(sorted_by_count(exprs)):
+                # Different objects may carry the same count (explicitly given
+                # counts): break the tie by something that does not depend on
+                # the iteration order of the set
+                for i, expr in enumerate(sorted(exprs, key=lambda e: (e.count(), repr(e)))):
                     numbering[expr] = i
             self._terminal_numbering = numbering
         return self._terminal_numbering
